@@ -150,10 +150,20 @@ pub fn adf_n(n: usize) -> BoxedStrategy<Vec<F>> {
         .map(|s| ac_formula(n, s))
         .collect::<Vec<_>>()
         .boxed();
+    // several statements share the *same* acceptance condition (identical diagrams in one list)
+    let random2: BoxedStrategy<Vec<F>> = (0..n).map(|s| ac_formula(n, s)).collect::<Vec<_>>().boxed();
+    let shared = (random2, proptest::collection::vec((any::<u16>(), any::<u16>()), 1..=3)).prop_map(move |(mut acs, copies)| {
+        for (from, to) in copies {
+            let (f, t) = (pick(from, n), pick(to, n));
+            acs[t] = acs[f].clone();
+        }
+        acs
+    });
     prop_oneof![
         6 => random,
         2 => chain_adf(n),
         3 => cycle_adf(n),
+        2 => shared,
     ]
     .boxed()
 }
